@@ -24,6 +24,14 @@ type idSpec struct {
 }
 
 func isUint32(t types.Type) bool {
+	if t == nil {
+		return false
+	}
+	// the plain uint32 of the broker ids; named types with that underlying
+	// type (os.FileMode, codes.Code, ...) are something else
+	if nt, isNamed := types.Unalias(t).(*types.Named); isNamed && nt.Obj().Pkg() != nil && !strings.HasPrefix(nt.Obj().Pkg().Path(), modPath) {
+		return false
+	}
 	b, ok := t.Underlying().(*types.Basic)
 	return ok && b.Kind() == types.Uint32
 }
